@@ -205,6 +205,13 @@ func (f *remoteWrapper) Pin() flowcontrol.FlowControl {
 }
 
 func (f *remoteWrapper) Sync(limitItem proxyv1alpha1.RateLimitItemConfiguration) {
+	limitItem, ok := f.sanitize(limitItem)
+	if !ok {
+		klog.Errorf("[remote limiter] cluster=%q name=%q ignore limit item which does not match the flowcontrol schema: %+v",
+			f.flowControlCache.cluster, limitItem.Name, limitItem.LimitItemDetail)
+		return
+	}
+
 	if reflect.DeepEqual(limitItem, f.remoteConfig) {
 		return
 	}
@@ -246,6 +253,40 @@ func (f *remoteWrapper) Sync(limitItem proxyv1alpha1.RateLimitItemConfiguration)
 	default:
 		f.GlobalCounterFlowControl = f.newFlowControl(limitItem, newType)
 	}
+}
+
+// sanitize bounds the quota answered by the limiter server by the global limit
+// configured in the schema, so that neither a limiter created from the answer nor
+// a resize can exceed it. An answer which does not carry the flow control type
+// of the schema is rejected. The answered item is never modified in place.
+func (f *remoteWrapper) sanitize(limitItem proxyv1alpha1.RateLimitItemConfiguration) (proxyv1alpha1.RateLimitItemConfiguration, bool) {
+	local := f.flowControlCache.local.Config()
+	switch {
+	case limitItem.MaxRequestsInflight != nil && local.GlobalMaxRequestsInflight != nil:
+		limitItem.MaxRequestsInflight = &proxyv1alpha1.MaxRequestsInflightFlowControlSchema{
+			Max: clampInt32(limitItem.MaxRequestsInflight.Max, 0, local.GlobalMaxRequestsInflight.Max),
+		}
+		limitItem.TokenBucket = nil
+	case limitItem.TokenBucket != nil && local.GlobalTokenBucket != nil:
+		limitItem.TokenBucket = &proxyv1alpha1.TokenBucketFlowControlSchema{
+			QPS:   clampInt32(limitItem.TokenBucket.QPS, 0, local.GlobalTokenBucket.QPS),
+			Burst: clampInt32(limitItem.TokenBucket.Burst, 0, local.GlobalTokenBucket.Burst),
+		}
+		limitItem.MaxRequestsInflight = nil
+	default:
+		return limitItem, false
+	}
+	return limitItem, true
+}
+
+func clampInt32(v, min, max int32) int32 {
+	if v > max {
+		v = max
+	}
+	if v < min {
+		v = min
+	}
+	return v
 }
 
 func (f *remoteWrapper) newFlowControl(limitItem proxyv1alpha1.RateLimitItemConfiguration, newType proxyv1alpha1.FlowControlSchemaType) GlobalCounterFlowControl {
